@@ -171,6 +171,27 @@ class TreeSim(WorldBase):
         sh = sl.shape[level]
         return sh
 
+    def kinds_ok(self, sl, level, f, osl, olevel, of):
+        """both sub-trees use the same kind of coordinate (int, or tuples of one arity) level by level"""
+        def kind(c):
+            return ("t", len(c)) if isinstance(c, tuple) else "i"
+
+        def walk(x, y):
+            if not isinstance(x, Fiber) or not isinstance(y, Fiber):
+                return isinstance(x, Fiber) == isinstance(y, Fiber)
+            kx = {kind(c) for c in x.coords}
+            ky = {kind(c) for c in y.coords}
+            if len(kx | ky) > 1:
+                return False
+            xs = [p for p in x.payloads if isinstance(p, Fiber)][:3]
+            ys = [p for p in y.payloads if isinstance(p, Fiber)][:3]
+            return all(walk(p, q) for p in xs for q in ys)
+        for dz, da in zip(range(level, sl.depth), range(olevel, osl.depth)):
+            kz, ka = sl.shape[dz], osl.shape[da]
+            if isinstance(kz, int) != isinstance(ka, int) or (not isinstance(kz, int) and len(kz) != len(ka)):
+                return False
+        return walk(f, of)
+
     def resync(self, s):
         sl = self.slots[s]
         sl.model = ob.content(sl.root, sl.default)
@@ -512,6 +533,15 @@ class TreeSim(WorldBase):
         elif act == "mul":
             box *= v
             new = cur * v
+        elif act == "mulbox":
+            box *= Payload(v)
+            new = cur * v
+        elif act == "sub":
+            box -= v
+            new = cur - v
+        elif act == "subbox":
+            box -= Payload(v)
+            new = cur - v
         elif act == "attr":
             box.v = v
             new = v
@@ -820,6 +850,8 @@ class TreeSim(WorldBase):
             raise Skip("same tensor")
         if osl.free or osl.depth - len(a["src_prefix"]) != sl.depth - level:
             raise Skip("level mismatch")
+        if not self.kinds_ok(sl, level, f, osl, len(a["src_prefix"]), of):
+            raise Skip("coordinate kinds differ")
         try:
             f.__ilshift__(of)
         except Exception as e:
@@ -996,6 +1028,8 @@ class TreeSim(WorldBase):
                 raise Skip("free")
             if zsl.depth - len(a["zpre"]) != asl.depth - len(a["apre"]):
                 raise Skip("levels differ")
+            if not self.kinds_ok(zsl, len(a["zpre"]), zf, asl, len(a["apre"]), af):
+                raise Skip("coordinate kinds differ (int vs tuple): not a populate a caller could write")
             zpre, apre = dec_point(a["zpre"]), dec_point(a["apre"])
         zsl, asl = self.slot(zs), self.slot(as_)
         t = self.new_task(tid, "populate")
@@ -1033,6 +1067,18 @@ class TreeSim(WorldBase):
                 p.child = None
             return self.unexpected("C05", "populate", e)
         targets.add(zs)
+        zfmt = zf.getOwner().getFormat() if zf.getOwner() is not None else "C"
+        if zfmt == "U" and self.prop == "C05":
+            # a destination whose rank is declared uncompressed presents its whole active range later on:
+            # that range is the one the populate defines (the source's)
+            self.probe("populate_U_destination")
+            try:
+                za, aa = zf.getActive(), af.getActive()
+            except Exception:
+                za = aa = None
+            if za != aa:
+                self.V("C05", "C05.active-range-follows-source", "populate",
+                       f"after z << a the uncompressed destination at {zpre} has active range {za}, the source's is {aa}")
         return {"judged": True, "exp": len(exp), "fmt": fmt}
 
     def step_populate(self, t, action, targets):
@@ -1543,8 +1589,16 @@ class TreeSim(WorldBase):
             return "add", g.choice([1, 2, 3, self.nextval()])
         if r < 0.6:
             return "addbox", g.choice([1, 2, 3])
-        if r < 0.7:
+        if r < 0.64:
             return "mul", g.choice([0, 2, 3])
+        if r < 0.66:
+            return "mulbox", g.choice([2, 3])
+        if r < 0.69:
+            return "sub", g.choice([1, 2, self.nextval()])
+        if r < 0.72:
+            return "subbox", g.choice([1, 2, self.nextval()])
+        if r < 0.74:
+            return "attr", self.nextval()
         if r < 0.8:
             return "set", "DEFAULT"
         return "none", None
@@ -1874,6 +1928,9 @@ class TreeSim(WorldBase):
             a["lo"] = g.randrange(0, S)
             a["hi"] = g.randrange(a["lo"], S + 1)
             a["step"] = g.choice([1, 1, 2])
+            if g.random() < 0.3:
+                # a descending walk
+                a["lo"], a["hi"], a["step"] = a["hi"] - 1, a["lo"] - 1, -a["step"]
         tid = self.next_tid
         self.next_tid += 1
         return ["start", tid, "ishaperef", a]
@@ -2025,9 +2082,9 @@ BASE_WEIGHTS = {
     "C02": dict(ALLMUT, get=2, getpos=0.5, rotrav=1.5, vr=2.5, ro=3),
     "C03": {"r0": 2, "ref": 8, "hw": 5, "posref": 3, "get": 8, "getpos": 3, "append": 0.5, "setitem": 0.7, "clear": 0.3,
             "populate": 0.7, "descend": 2, "updp": 0.3, "fimul": 0.3, "filshift": 0.3, "new_op": 0.3},
-    "C05": {"populate": 8, "descend": 10, "ref": 3, "hw": 1, "get": 3, "setitem": 1, "clear": 0.3, "filshift": 0.5,
+    "C05": {"vr": 1.0, "populate": 8, "descend": 10, "ref": 3, "hw": 1, "get": 3, "setitem": 1, "clear": 0.3, "filshift": 0.5,
             "fimul": 0.5, "rotrav": 0.5, "new_op": 0.7},
-    "C10": dict(ALLMUT, get=2, getpos=1, rotrav=2, vr=10, ro=10, render=0.12, r0=0.5),
+    "C10": dict(ALLMUT, get=2, getpos=1, rotrav=2, vr=10, ro=10, render=0.2, r0=0.5),
 }
 FOCUS = {
     "C01": {"ref", "setitem", "append", "populate", "descend"},
